@@ -43,6 +43,15 @@ pub fn fixed_jobs(tier: Tier, need: Need) -> Vec<Job> {
     if !layout_ok(&nl.layout, need) { continue; }
     let full = with_foreign(mentioned_keys(&nl.layout), &nl.layout, 1);
     let trig = with_foreign(trigger_keys(&nl.layout), &nl.layout, 1);
+    if nl.name.starts_with("allmods-") {
+      // every standard modifier is in the alphabet, mentioned or not (key-class symmetry checked, not assumed)
+      use KeyCode::*;
+      let mut a = mentioned_keys(&nl.layout);
+      for k in [LEFTSHIFT, RIGHTSHIFT, LEFTCTRL, RIGHTCTRL, LEFTALT, RIGHTALT, LEFTMETA, RIGHTMETA, F1] { if !a.contains(&k) { a.push(k); } }
+      let n = if a.len() > 14 { 2 } else { 3 } + if tier == Tier::Thorough { 1 } else { 0 };
+      jobs.push(Job::Fixed { name: nl.name, layout: nl.layout, alphabet: a, n, alpha_rule: "all mentioned keys + all eight standard modifiers + F1" });
+      continue;
+    }
     let (alphabet, n, rule) = match tier {
       Tier::Quick => if full.len() <= 14 { (full, 3, "all mentioned keys + 1 foreign key + 1 foreign modifier") } else if full.len() <= 40 { (full, 2, "all mentioned keys + 1 foreign key + 1 foreign modifier") } else { (trig, 2, "trigger keys + 1 foreign key + 1 foreign modifier") },
       Tier::Thorough => if full.len() <= 14 { (with_foreign(mentioned_keys(&nl.layout), &nl.layout, 2), 4, "all mentioned keys + 2 foreign keys + 2 foreign modifiers") } else if full.len() <= 60 { (full, 3, "all mentioned keys + 1 foreign key + 1 foreign modifier") } else { (trig, 3, "trigger keys + 1 foreign key + 1 foreign modifier") },
@@ -205,6 +214,7 @@ fn plan_for(id: &str, tier: Tier) -> Plan {
       let mut gens = vec![g(Family::Dist, cfg_with(Family::Dist, &all_f, &[0, 1, 2], false, None), 1, 4, 1, "all non-absorbing single mappings of G-dist")];
       if q {
         gens.push(g(Family::Dist, cfg_with(Family::Dist, &all_f, &[0, 1, 2], false, None), 2, 3, 0, "all ordered non-absorbing pairs of G-dist (no foreign keys)"));
+        gens.push(g(Family::Dist, deep_cfg(Family::Dist, &[0], false), 2, 4, 0, "non-absorbing Normal pairs with up to three other trigger keys (finals B, A), N=4"));
       } else {
         gens.push(g(Family::Dist, cfg_with(Family::Dist, &all_f, &[0, 1, 2], false, None), 2, 4, 1, "all ordered non-absorbing pairs of G-dist, N=4"));
         gens.push(g(Family::Dist, cfg_with(Family::Dist, &all_f, &[0, 1], false, None), 2, 8, 1, "non-absorbing pairs of G-dist (Normal/Disabled) with no bound on held keys"));
